@@ -53,6 +53,8 @@ pub struct DebugSession {
     module_info: Option<init::ModuleInfo>,
     canceled_request_ids: HashSet<i64>,
     canceled_progress_ids: HashSet<String>,
+    /// `seq` of the last request a response has been written for.
+    last_responded_request: Option<i64>,
 }
 
 const EXCEPTION_FILTER_SIGNAL: &str = "signal";
@@ -125,6 +127,7 @@ impl DebugSession {
             module_info: None,
             canceled_request_ids: HashSet::new(),
             canceled_progress_ids: HashSet::new(),
+            last_responded_request: None,
         }
     }
 
@@ -466,7 +469,10 @@ impl DebugSession {
         };
         let value = serde_json::to_value(rsp)?;
 
-        lock.write_message(&value)
+        lock.write_message(&value)?;
+        drop(lock);
+        self.last_responded_request = Some(req.seq);
+        Ok(())
     }
 
     fn send_event(&mut self, name: &'static str) -> anyhow::Result<()> {
@@ -669,10 +675,17 @@ impl DebugSession {
             if req.r#type != "request" {
                 continue;
             }
+            self.last_responded_request = None;
             let cont = match self.dispatch(&req, &oracles) {
                 Ok(cont) => cont,
                 Err(e) => {
-                    let _ = self.send_err(&req, format!("{e:#}"));
+                    // exactly one response per request: a handler that has already answered and
+                    // fails afterwards must not be answered a second time
+                    if self.last_responded_request != Some(req.seq) {
+                        let _ = self.send_err(&req, format!("{e:#}"));
+                    } else {
+                        log::warn!(target: "dap", "`{}` failed after its response: {e:#}", req.command);
+                    }
                     true
                 }
             };
